@@ -25,7 +25,8 @@ THEOREMS = [
     "Determinism.rootKinds_invariant",
     "Determinism.projectname_invariant_partial", "Determinism.projectname_counterexample",
     "Determinism.projectname_depends_on_enumeration",
-    "Determinism.keyed_writes_invariant", "Determinism.rerun_idempotent", "Determinism.output_independent_of_old_content",
+    "Determinism.keyed_writes_invariant", "Determinism.run_writes_through", "Determinism.run_characterization",
+    "Determinism.rerun_idempotent", "Determinism.output_independent_of_old_content",
 ]
 PARTIAL = {
     "Determinism.projectname_invariant_partial":
@@ -34,10 +35,11 @@ PARTIAL = {
         "no --project-name (Determinism.projectname_counterexample / projectname_depends_on_enumeration show the "
         "dependence for ANY two distinct root names); the direct oracle runs them and reports hashseed:project-name-guess",
     "Determinism.rerun_idempotent":
-        "hypothesis wfRun: the name that becomes the root symlink (<root>.html) is not also the name of a written file. "
-        "Excluded: a single root module named like a summary page (classIndex, moduleIndex, ...; concrete witness proved "
-        "idempotent by `decide` beside the theorem) and a single root named `index` (link to itself, the run aborts: a "
-        "C01 matter). The hypothesis is evaluated on the operation log of every real build (stream oplog)",
+        "hypothesis wfRun: the name that becomes the root symlink (<root>.html) is not written after the link is made, and "
+        "either not before it, or the link target (index.html) is rewritten afterwards and differs from it (covers a single "
+        "root module named like a summary page, whose summary page a re-run writes THROUGH the old link). Excluded: a "
+        "single root named `index` (the link points at itself, open() fails with ELOOP and the run aborts: a C01 matter; "
+        "concrete witness by `decide`). The hypothesis is evaluated on the operation log of every real build (stream oplog)",
 }
 RULE = ("generated projects (1-3 roots: packages and plain modules; with / without --project-name; every docformat; "
         "docstrings with cross references; duplicates; private names; attrs / zope.interface / deprecate uses; stray "
